@@ -12,6 +12,7 @@ import importlib
 import logging
 import marshal
 import math
+import os
 import sys
 import tokenize as tk
 
@@ -36,6 +37,18 @@ from pycel.lib.function_info import func_status_msg
 
 
 ADDR_FUNCS_NAMES = '_R_', '_C_', '_REF_'
+
+# verification instrumentation, inert unless PYCEL_VERIF=1 in the environment
+_VERIF = os.environ.get('PYCEL_VERIF') == '1'
+verif_hook = None  # callable(event, excel_formula, address), set by a harness
+
+
+def _verif_traced(event, excel_formula, func):
+    def traced(address, *args, **kwargs):
+        if verif_hook is not None:
+            verif_hook(event, excel_formula, address)
+        return func(address, *args, **kwargs)
+    return traced
 
 
 class FormulaParserError(PyCelException):
@@ -896,6 +909,11 @@ class ExcelFormula:
             name_space['_R_'] = evaluate_range
             name_space['_REF_'] = AddressRange.create
             name_space['pi'] = math.pi
+            if _VERIF:
+                name_space['_C_'] = _verif_traced(
+                    'read_cell', excel_formula, evaluate)
+                name_space['_R_'] = _verif_traced(
+                    'read_range', excel_formula, evaluate_range)
 
             # function to fixup the operands
             name_space['excel_operator_operand_fixup'] = \
@@ -918,6 +936,9 @@ class ExcelFormula:
 
         def eval_func(excel_formula, cse_array_address=None):
             """ Call the compiled lambda to evaluate the cell """
+
+            if _VERIF and verif_hook is not None:
+                verif_hook('eval', excel_formula, cse_array_address)
 
             if excel_formula.compiled_lambda is None:
                 missing = load_function(excel_formula, locals())
